@@ -133,10 +133,23 @@ def canary_controls(chk: Check) -> None:
         chk.note_inconclusive("the canary detector did not see the payload in a `structure` control")
 
 
+class _Text:
+    """An object that is no string but prints as one."""
+
+    def __init__(self, text):
+        self.text = text
+
+    def __str__(self):
+        return self.text
+
+
 def canary_directed(chk: Check) -> None:
     """Directed family for (a): plain hostile data named in *every* attribute that takes an expression, the METAL ones
     included (metal:use-macro of something that is no macro must not pour it into the page)."""
-    vals = {"s1": talref.CANARIES[0], "d1": {"k": talref.CANARIES[1 % len(talref.CANARIES)]}, "seq": list(talref.CANARIES)}
+    vals = {"s1": talref.CANARIES[0], "d1": {"k": talref.CANARIES[1 % len(talref.CANARIES)]}, "seq": list(talref.CANARIES),
+            # the same text as values of other types (what a file read in binary mode, a number-like or a custom object gives)
+            "b1": talref.CANARIES[0].encode(), "bl": [c.encode() for c in talref.CANARIES], "o1": _Text(talref.CANARIES[0]),
+            "ba": bytearray(talref.CANARIES[0].encode())}
     shapes = ['<div metal:use-macro="%s">static</div>', '<div metal:use-macro="%s | nothing">static</div>',
               '<div metal:use-macro="%s"><b metal:fill-slot="x">filled</b></div>',
               '<p tal:content="%s">x</p>', '<p tal:replace="%s">x</p>', '<p tal:attributes="title %s" title="t">x</p>',
@@ -144,7 +157,9 @@ def canary_directed(chk: Check) -> None:
               '<p tal:content="string:a ${%s} b">x</p>', '<p tal:condition="%s">shown</p>', '<p tal:omit-tag="%s">kept</p>',
               '<p tal:content="nosuch | %s">x</p>', '<p tal:attributes="class string:c-${%s}; id %s">x</p>']
     for shape in shapes:
-        for expr in ("s1", "d1/k", "seq/0"):
+        for expr in ("s1", "d1/k", "seq/0", "b1", "bl/0", "o1", "ba"):
+            if expr in ("b1", "bl/0", "o1", "ba") and "use-macro" in shape:
+                continue
             tpl = "<html><body>%s</body></html>" % (shape.replace("%s", expr))
             detail = {"sub": "canary-directed", "case_seed": chk.seed, "page": tpl}
             try:
